@@ -39,6 +39,7 @@ class Result:
     replay: Optional[dict] = None     # data for the replay file
     bound: str = ""               # for B-class: the stated bound
     evaluations: int = 0
+    cand: bool = False            # undecided, but a counter-model of the quantifier-free hypotheses exists
 
     def brief(self):
         return {
@@ -73,6 +74,22 @@ class Findings:
                 if e.get("status") == "known" and e["property"] == prop]
 
 
+class Baseline:
+    """baseline/<prop>.json: ids of the obligations discharged on the unchanged tree (committed;
+    regenerated only by `vcheck baseline`, never at check time)."""
+
+    def __init__(self, prop):
+        self.path = os.path.join(VERIF, "baseline", prop + ".json")
+        try:
+            with open(self.path) as f:
+                self.discharged = set(json.load(f)["discharged"])
+        except FileNotFoundError:
+            self.discharged = set()
+
+    def __contains__(self, oid):
+        return oid in self.discharged
+
+
 class Report:
     """Collects results for one property run and turns them into exit code,
     VIOLATION / KNOWN-FINDING lines, replay files and the evidence file."""
@@ -91,6 +108,7 @@ class Report:
         self.known_confirmed: list[str] = []
         self.t0 = time.time()
         self.findings = Findings()
+        self.baseline = Baseline(prop)
         self.extra_cov: dict[str, Any] = {}
 
     # -- collection -------------------------------------------------------
@@ -131,6 +149,16 @@ class Report:
         code = 0
         os.makedirs(os.path.join(VERIF, "replays", self.prop), exist_ok=True)
 
+        # an obligation of the property itself (P) that was discharged on the unchanged tree and can
+        # no longer be proved, with a counter-model of its quantifier-free hypotheses as the solver's
+        # reason, is reported as the violation (no-failing-input-found): DESIGN 4.5
+        for r in list(undecided):
+            if r.klass == "P" and r.cand and r.oid in self.baseline:
+                undecided.remove(r)
+                violated.append(r)
+                r.output = ("obligation was discharged on the unchanged tree and is no longer provable; "
+                            "the solver has a counter-model of the quantifier-free hypotheses but returned "
+                            "'unknown' on the full query\n") + r.output
         n_violation = 0
         for r in violated:
             # L-class failures without a replayed witness are "undecided".
